@@ -31,6 +31,8 @@ def run_one(kind, name, tier):
         props = sorted(set(l.split("property=")[1].split()[0] for l in out.splitlines() if l.startswith("VIOLATION")))
         keys = sorted(set(l.strip().split(" [K", 1)[0] for l in out.splitlines() if "|" in l and " [K" in l and not l.startswith(("VIOLATION", "C0", "C1"))))
         errs = [l[:300] for l in out.splitlines() if l.startswith("CHECK-ERROR")]
+        if p.returncode not in (0, 1) or "Traceback (most recent call last)" in out:
+            errs.append("check crashed (exit %d): %s" % (p.returncode, out.strip().splitlines()[-1][:200] if out.strip() else ""))
         return {"name": name, "kind": kind, "status": "ran", "props": props, "keys": keys, "errors": errs}
     finally:
         shutil.rmtree(tmp, ignore_errors=True)
